@@ -920,6 +920,8 @@ impl<T> Sender<T> {
                     return Err(SendErrorTimeout::Closed);
                 }
             }
+            // the receiver owns the data now, it should not be dropped here
+            core::mem::forget(d);
             Ok(())
         }
         // if the queue is not empty send the data
